@@ -12,11 +12,15 @@ TRUST = ("CBMC 6.11 (C front end, pointer/IEEE-754 models, MiniSat back end); lo
 CLAIMED = {
     'C16': dict(
         category='proof',
-        text='CBMC code contracts enforced per function on bodies extracted from /repo on every run: '
-             'Envelope::{lowerSolve,diagonalSolve,upperSolve,element,cholDec} are memory-safe and framed for all '
-             'well-formed profiles (symbolic dimension up to 1e6, loop contracts, no unwinding), diagonalSolve writes exact '
-             'zeros on zero pivots, cholDec leaves every pivot (row 1 included) either exactly 0 or >= tol and counts the '
-             'zeroed ones in defect_. Numerical equality with dense LDL\' is NOT proved (floating point).',
+        text='CBMC code contracts enforced per function on bodies extracted from /repo on every run. '
+             'Envelope::{lowerSolve,diagonalSolve,upperSolve,element,cholDec,copy,set(bands),set(sparse)} are memory-safe and framed for '
+             'all well-formed profiles (symbolic dimension up to 1e6, loop contracts, no unwinding), the set functions ESTABLISH the '
+             'profile invariant, diagonalSolve writes exact zeros on zero pivots, cholDec leaves every pivot (row 1 included) either '
+             'exactly 0 or >= tol and counts the zeroed ones in defect_; Envelope::inverse: unbounded structural proof (thorough tier). '
+             'SparseMatrix new_row/add_element/transpose/replicate keep the CRS invariant and every entry; inverse_permutaion gives '
+             'invp(perm(i)) = i; BlockDiagonal/UpperBlockDiagonal row layout. Bounded, labelled as such: RCM output is a permutation (all '
+             'graphs <= 3 nodes quick, 4 nodes thorough), SparseMatrixGraph constructor, connected() == Warshall closure (<= 3/4 nodes), '
+             "exact LDL'/solve/inverse on dim <= 3. Numerical equality with dense LDL' for arbitrary reals and RCM quality are NOT decided.",
         design_ref='DESIGN.md 5 (C16)',
         note=TRUST,
         technique='contract-based deductive verification (CBMC dfcc function + loop contracts on extracted code)'),
@@ -34,20 +38,29 @@ CLAIMED = {
         technique='contract-based deductive verification (CBMC dfcc contracts + representation invariant + ghost tags)'),
     'C11': dict(
         category='proof',
-        text='GKF parser automaton under contract, loop-free hence complete: for all 30 states x 20 tags startElement/endElement '
-             'keep the state in range, the error state is absorbing, ENTERING the error state always records an error code and '
-             'the current line (located diagnostic), the target state is the one the schema prescribes; numeric literal recognisers equal their grammar for all strings up to 8 bytes and gate atof/atoi; CoreParser::error: first '
-             'error wins; character data handler stays inside its buffer. expat, the attribute handlers process_* (assumed '
-             'contracts, syntactically guarded) and sanitizer-cleanliness of the whole process are not decided.',
+        text='GKF parser automaton under contract, loop-free hence complete: for all 30 states x 20 tags startElement/endElement keep the '
+             'state in range, the error state is absorbing, ENTERING the error state always records an error code and the current line '
+             '(located diagnostic), the target state is the one the schema prescribes; process_cov accepts exactly usable (dim, band) pairs '
+             'whose element count fits an int, finish_cov writes each band position exactly once and refuses too few / too many / malformed '
+             'elements; numeric literal recognisers equal their grammar for all strings up to 8 bytes and gate atof/atoi (no out-of-range '
+             'conversion); CoreParser::error: first error wins; the <cov-mat>/<dim>/<band>/<flt>/<point> handlers of the adjustment-results '
+             'reader never write outside the covariance block, refuse impossible dimensions with a located error and compare only defined '
+             'iterators. expat, the remaining attribute handlers process_* (assumed contracts, syntactically guarded) and '
+             'sanitizer-cleanliness of the whole process are not decided.',
         design_ref='DESIGN.md 5 (C11)',
         note=TRUST + '; 23 process_*/finish_* handlers enter through assumed contracts listed in the evidence',
         technique='contract-based deductive verification (CBMC dfcc contracts on the extracted automaton, all state/tag pairs)'),
     'C20': dict(
         category='proof',
-        text='Per-solver flag bookkeeping under an arbitrary symbolic permutation: AdjEnvelope::lindep(i) is true iff the pivot '
-             'of row invp(i) of the factorised envelope is zero (caller numbering), defect() is the number of zeroed pivots '
-             '(Envelope::cholDec contract, all rows). "Truly linearly dependent" (numerical rank) and identical removals across '
-             'algorithms are not decided.',
+        text='Per-solver flag bookkeeping: AdjEnvelope::lindep(i) is true iff the pivot of row invp(i) of the factorised envelope is zero '
+             'under an arbitrary symbolic permutation (caller numbering), defect() is the number of zeroed pivots (Envelope::cholDec '
+             'contract, all rows); AdjCholDec/AdjGSO/AdjSVD lindep/defect answer only after solve(); ICGS: lindep_columns is rebuilt by '
+             'every icgs1, the regularisation subset is exactly the list last given, error() reports a subset that does not resolve the '
+             'defect; SVD::min_subset_x raises BadRegularization iff defect > number of constrained unknowns; LocalNetwork::null_space '
+             'removes exactly the owner of the first flagged unknown with the matching reason; LocalNetwork::singular_coords removes a free '
+             'point iff its x/y columns are (anti)parallel or one is zero (symmetric in the sign of the dot product, no NaN). KNOWN FINDING '
+             "(printed, not suppressed elsewhere): SVD::lindep(i) tests the i-th singular value. 'Truly linearly dependent' (numerical "
+             'rank), non-spanning subsets and identical removals across algorithms are not decided.',
         design_ref='DESIGN.md 5 (C20)',
         note=TRUST + '; the count clause composes two machine-checked contracts by a bijection argument that is not itself machine-checked',
         technique='contract-based deductive verification (CBMC dfcc contracts with ghost permutation)'),
@@ -69,11 +82,13 @@ CLAIMED = {
     'C09': dict(
         category='proof',
         text='LocalNetwork statistics under contract (extracted bodies, stubs for the adjustment stages, sqrt/atan2/Normal/Student): '
-             'degrees_of_freedom = rows - cols + defect; m_0 a posteriori is the one sqrt of the recorded quotient vPv/dof (0 for dof <= 0); '
-             'conf_int_coef calls Normal iff the reference deviation is a priori, Student(.., dof) iff a posteriori with dof > 0; conf_pr '
-             'accepts exactly (0,1); stdev = m0 * sqrt(cofactor) read only from a current adjustment; error ellipse: call/sign structure by CBMC, '
-             'the eigen-decomposition identities by z3 over the reals on the extracted statement text. sigma_L and residual cofactors inside '
-             'vyrovnani_, and invariance under sigma-apr (two runs) are not decided.',
+             'degrees_of_freedom = rows - cols + defect; m_0 a posteriori is the one sqrt of the recorded quotient vPv/dof (0 for dof <= '
+             '0); conf_int_coef calls Normal iff the reference deviation is a priori, Student(.., dof) iff a posteriori with dof > 0; '
+             'conf_pr accepts exactly (0,1); stdev = m0 * sqrt(cofactor) read only from a current adjustment; error ellipse: call/sign '
+             'structure by CBMC, the eigen-decomposition identities by z3 over the reals on the extracted statement text; tail of '
+             'vyrovnani_: weights p = (m0/stdev)^2, sigma_L = m0*sqrt(q_L), residual cofactor 1/p - q_L clamped at 0 exactly, each block '
+             'written for its own observation index. Invariance under sigma-apr (two runs) and the text/XML field agreement are not '
+             'decided.',
         design_ref='DESIGN.md 5 (C09)',
         note=TRUST + '; assumed contracts for sqrt (monotone, >= 0), atan2 range, Normal/Student (recorded arguments), q_xx as an uninterpreted function',
         technique='contract-based deductive verification (CBMC dfcc contracts; z3 real-arithmetic lemmas on the extracted text)'),
@@ -91,32 +106,37 @@ CLAIMED = {
         category='proof',
         text='Matrix library under contract: the packed/banded index maps of Vec, Mat, SymMat, CovMat, BandMat (real operator()/operator[] '
              'bodies) are overflow-free and in bounds (CBMC, d <= 2^15 stated) and bijective/symmetric/layout-correct over mathematical '
-             'integers (z3, unbounded, on expressions translated mechanically from the extracted text); MemRep keeps its ownership invariant '
-             'through every constructor, assignment, move, resize and destructor for all size pairs, copies are independent of their source, '
-             'negative sizes raise; element-wise kernels (scale, add, sub, mul, dot, set_all) raise exactly on non-conforming operands, stay '
-             'inside the operands under every aliasing and add/sub are exact element-wise; SVD row tables (min_x, reset_UWV) are memory-safe. '
-             'Bounded only (thorough): CovMat::cholDec/solve exact on dim <= 3. SVD reconstruction, Moore-Penrose conditions, inv(A)A = I are '
-             'not decided (floating point, iterative).',
+             'integers (z3, unbounded, on expressions translated mechanically from the extracted text); MemRep keeps its ownership '
+             'invariant through every constructor, assignment, move, resize and destructor for all size pairs, copies are independent of '
+             'their source, negative sizes raise; CovMat::reset(d,b) yields the requested shape (all index fields and the packed size '
+             'belong to (d,b)) from ANY earlier shape; element-wise kernels (scale, add, sub, mul, dot, set_all) raise exactly on '
+             'non-conforming operands, stay inside the operands under every aliasing and add/sub are exact element-wise; SVD row tables '
+             '(min_x, reset_UWV) are memory-safe. Bounded only: CovMat::cholDec/solve exact on dim <= 3 (thorough), reset among shapes <= 8 '
+             '(quick companion). SVD reconstruction, Moore-Penrose conditions, inv(A)A = I are not decided (floating point, iterative).',
         design_ref='DESIGN.md 5 (C15)',
         note=TRUST + '; libc memcpy enters through an assumed contract (regions valid and disjoint, contents copied at a ghost index)',
         technique='contract-based deductive verification (CBMC dfcc contracts; z3 integer lemmas on the extracted index expressions)'),
     'C12': dict(
         category='proof',
-        text='str2xml under contract (loop contract, input length up to 1e9): the output contains no raw < or >, every & starts one of the five '
-             'predefined entities, and each input byte contributes a segment that XML-unescapes to exactly that byte (so the reader gets the '
-             'description back); Utf8::length never reads at or beyond length() and counts code points of well-formed UTF-8. Bounded end-to-end '
-             'round trip for all strings of <= 4 bytes (quick) / 6 bytes (thorough). That EVERY user string passes through str2xml (point ids are '
-             'streamed raw), the result reader round trip, and agreement with the HTML/text/Octave outputs are not decided.',
+        text='str2xml under contract (loop contract, input length up to 1e9): the output contains no raw < or >, every & starts one of the '
+             'five predefined entities, and each input byte contributes a segment that XML-unescapes to exactly that byte (so the reader '
+             'gets the description back); Utf8::length never reads at or beyond length() and counts code points of well-formed UTF-8; the '
+             "result reader's <point> handlers start every point from a cleared record (no coordinate or index leaks from the previous "
+             'point). Bounded end-to-end round trip for all strings of <= 4 bytes (quick) / 6 bytes (thorough). That EVERY user string '
+             'passes through str2xml (point ids are streamed raw), the full reader round trip, agreement with the HTML/text/Octave outputs, '
+             'compare-xyz and deformation are not decided.',
         design_ref='DESIGN.md 5 (C12)',
         note=TRUST + '; std::string is lowered to a length-carrying byte buffer whose append model asserts the 6n output bound',
         technique='contract-based deductive verification (CBMC dfcc function + loop contracts on the extracted escaping loop)'),
     'C18': dict(
         category='proof',
-        text='Literal recognisers (real intfloat.h through the C++ front end): IsFloat/IsInteger equal the reference automata of the documented '
-             'grammars for ALL byte strings up to 8 (quick) / 12 (thorough) bytes, never read outside the buffer, and every <cctype> argument is in '
-             'its ISO domain; gon2deg/rad2dms/dms2rad: field ranges (minutes 0..59, seconds < 60 also AFTER rounding to the printed precision, carry '
-             'into minutes/degrees), results in the half-open circle; bearing_distance: d >= 0, coincident points give (0,0) without calling atan2, '
-             'bearing in [0, 2pi) given an assumed atan2 range. Ellipsoid round trips, deg2gon string parsing (istringstream) and the bearing '
+        text='Literal recognisers (real intfloat.h through the C++ front end): IsFloat/IsInteger equal the reference automata of the '
+             'documented grammars for ALL byte strings up to 8 (quick) / 12 (thorough) bytes, never read outside the buffer, and every '
+             '<cctype> argument is in its ISO domain; gon2deg/rad2dms/dms2rad: field ranges (minutes 0..59, seconds < 60 also AFTER '
+             'rounding to the printed precision, carry into minutes/degrees), results in the half-open circle; deg2gon: sign and field '
+             'validity of sexagesimal literals (a negative literal with zero degrees stays negative); bearing_distance: d >= 0, coincident '
+             'points give (0,0) without calling atan2, bearing in [0, 2pi) given an assumed atan2 range; Ellipsoid::xyz2blh on the rotation '
+             'axis returns the pole of the right hemisphere. Ellipsoid round trips off the axis (sin/cos/atan chains) and the bearing '
              'antisymmetry itself are not decided.',
         design_ref='DESIGN.md 5 (C18)',
         note=TRUST + '; assumed contracts: sqrt (>= 0, 0 iff 0), atan2 in [-pi, pi], ostream<< rounds half-even at the set precision; isspace/isdigit are the C-locale ASCII classes',
